@@ -494,7 +494,9 @@ pub fn run_job(j: &Job) -> Value {
         vw::set_lz_bias(0);
         vw::age(0);
         if tracing {
-            if evs.len() > max_events {
+            // other groups' hooks (per-symbol events) share the sink: keep the window / API events only
+            let mine = evs.iter().filter(|(t, _)| *t >= 16).count();
+            if mine > max_events {
                 truncated = true;
             } else {
                 events = evs.iter().filter_map(|(t, f)| ev_json(*t, f)).collect();
